@@ -83,6 +83,14 @@ class AList:
         return f'AList({self.l!r})'
 
 
+class AIter:
+    """host iterator over a concrete item list"""
+
+    def __init__(self, items):
+        self.items = list(items)
+        self.pos = 0
+
+
 class ContinueSig(Exception):
     pass
 
@@ -266,7 +274,7 @@ class Interp:
             return bool(v.d)
         if isinstance(v, AList):
             return bool(v.l)
-        if isinstance(v, (AMatch, ALine, ARegex, ModuleFunc, APart)):
+        if isinstance(v, (AMatch, ALine, ARegex, ModuleFunc, APart, AIter)):
             return True
         if isinstance(v, Sym):
             if v.kind in ('group', 'parsed', 'unescaped', 'arglist', 'line', 'fstr'):
@@ -276,6 +284,10 @@ class Interp:
         raise Unrecognised(self.rule, f'truthiness of {v!r} is not decidable' + (f' at {norm(node)[:60]}' if node is not None else ''), None)
 
     def iterate(self, v, node):
+        if isinstance(v, AIter):
+            rest = v.items[v.pos:]
+            v.pos = len(v.items)
+            return rest
         if isinstance(v, AList):
             return list(v.l)
         if isinstance(v, ADict):
@@ -685,14 +697,16 @@ class Interp:
                     return len(v)
                 return Sym('len', v)
             if name == 'iter':
-                return ('iter', self.iterate(args[0], e))
+                return args[0] if isinstance(args[0], AIter) else AIter(self.iterate(args[0], e))
             if name == 'next':
                 src = args[0]
-                items = src[1] if isinstance(src, tuple) and src and src[0] == 'iter' else (src if isinstance(src, list) else None)
-                if items is None:
+                if isinstance(src, list):       # a generator expression evaluated eagerly
+                    src = AIter(src)
+                if not isinstance(src, AIter):
                     self.bad(e, 'next() of a non-iterator')
-                if items:
-                    return items[0]
+                if src.pos < len(src.items):
+                    src.pos += 1
+                    return src.items[src.pos - 1]
                 if len(args) > 1:
                     return args[1]
                 raise RaiseSig('StopIteration', (), e)
